@@ -366,6 +366,7 @@ pub fn resolve_inputs(spec: &str, seed: u64) -> Vec<Input> {
             "offsets" => out.extend(offset_inputs()),
             "nocode" => out.extend(nocode_inputs()),
             "noncanon" => out.extend(noncanonical_inputs()),
+            "trailing" => out.extend(trailing_operator_inputs()),
             "bodysizes" => out.extend(body_size_inputs(false)),
             "bodysizes-big" => out.extend(body_size_inputs(true)),
             "dwarfed" => out.extend(dwarfed_inputs(seed, f[1].parse().unwrap())),
@@ -385,6 +386,7 @@ pub fn resolve_inputs(spec: &str, seed: u64) -> Vec<Input> {
                 out.extend(offset_inputs());
                 out.extend(nocode_inputs());
                 out.extend(noncanonical_inputs());
+                out.extend(trailing_operator_inputs());
             }
             "file" => {
                 let bytes = std::fs::read(f[1]).expect("input file");
@@ -1349,6 +1351,39 @@ pub fn noncanonical_inputs() -> Vec<Input> {
             c.function(&body);
             m.section(&c);
             Input { id: format!("noncanon-{}", tag), bytes: m.finish(), source: format!("noncanon:{}", tag) }
+        })
+        .collect()
+}
+
+/// function bodies with bytes after the `end` that closes the function (the size field covers them): always invalid
+pub fn trailing_operator_inputs() -> Vec<Input> {
+    use wasm_encoder as we;
+    let tails: [(&str, Vec<u8>); 8] = [
+        ("end-nop", vec![0x0b, 0x01]),
+        ("end-const-drop-end", vec![0x0b, 0x41, 0x00, 0x1a, 0x0b]),
+        ("end-end", vec![0x0b, 0x0b]),
+        ("end-unreachable-end", vec![0x0b, 0x00, 0x0b]),
+        ("end-return-end", vec![0x0b, 0x0f, 0x0b]),
+        ("end-br0-end", vec![0x0b, 0x0c, 0x00, 0x0b]),
+        ("nop-end-ff", vec![0x01, 0x0b, 0xff]),
+        ("nop-end-truncated-const", vec![0x01, 0x0b, 0x41]),
+    ];
+    tails
+        .iter()
+        .map(|(tag, raw)| {
+            let mut m = we::Module::new();
+            let mut t = we::TypeSection::new();
+            t.function([], []);
+            m.section(&t);
+            let mut f = we::FunctionSection::new();
+            f.function(0);
+            m.section(&f);
+            let mut c = we::CodeSection::new();
+            let mut body = we::Function::new([]);
+            body.raw(raw.iter().copied());
+            c.function(&body);
+            m.section(&c);
+            Input { id: format!("trailing-{}", tag), bytes: m.finish(), source: format!("trailing:{}", tag) }
         })
         .collect()
 }
